@@ -414,6 +414,24 @@ Section Json.
   Definition jtree (v : jvalue) : tree := jnode DocumentNode [] JSONRoot v.
 End Json.
 
+(* ---- what the converter makes of a value with REPEATED object keys --------------------------------
+   nodeToInterface folds members of equal name into an array, in member order, at the position of
+   the first occurrence (obj_add); jfold is that folding applied at every level.  For values with
+   pairwise distinct keys jfold is the identity (Proofs/Json.v jfold_wf). *)
+Definition group_members (kvs : list (bytes * jvalue)) : list (bytes * jvalue) :=
+  map (fun '(k, e) => (k, jentry_val e))
+      (fold_left (fun acc kv => obj_add acc (fst kv) (snd kv)) kvs []).
+
+Fixpoint jfold (v : jvalue) : jvalue :=
+  match v with
+  | JArr xs => JArr ((fix go (xs : list jvalue) : list jvalue :=
+                        match xs with [] => [] | x :: r => jfold x :: go r end) xs)
+  | JObj kvs => JObj (group_members
+                        ((fix go (kvs : list (bytes * jvalue)) : list (bytes * jvalue) :=
+                            match kvs with [] => [] | (k, x) :: r => (k, jfold x) :: go r end) kvs))
+  | _ => v
+  end.
+
 (* ---- well-formedness of a value: object keys pairwise distinct at every level ---------------- *)
 Fixpoint keys_distinct (ks : list bytes) : bool :=
   match ks with
@@ -520,8 +538,9 @@ Definition check_jcase (c : jcase) : bool :=
              (* the token model, the denotational tree, and the property on the model side *)
              list_eqb jtok_eqb (jtokens v) (jc_toks c)
              && tree_eqb (jtree fmtf v) t
-             && jwf v
-             && jvalue_eqb (j2iface parsef true t) v
+             (* json_convert_fold on this case; and, for distinct keys, the round trip *)
+             && jvalue_eqb (j2iface parsef true t) (jfold v)
+             && (negb (jwf v) || jvalue_eqb (jfold v) v)
          | None => true
          end
   | None, None => match jc_val c with None => true | Some _ => false end
